@@ -302,16 +302,9 @@ def read_buffer_ops(files):
 def read_replay_check(cache_src, cont_src):
     """ContinuityStore::replay_events = sidecar if ContinuityStreamCache::try_replay accepts it, else the truth log;
     try_replay must require first seq 0 and successor seqs."""
-    sp = fn_span(cont_src, "replay_events")
-    if not sp:
-        return None, "fn replay_events not found"
-    body = cont_src[sp[0]:sp[1]]
-    tm = re.search(r"if\s+let\s+Ok\(\s*Some\(\s*(\w+)\s*\)\s*\)\s*=\s*self\s*\.\s*stream_cache\s*\.\s*try_replay\(\s*continuity_id\s*\)\s*\{\s*return\s+Ok\(\s*\1\s*\)\s*;\s*\}", body)
-    lm = re.search(r"self\s*\.\s*event_log\s*\.\s*replay_stream\(\s*StreamKind::Continuity\s*,\s*continuity_id\s*\)", body)
-    if not tm or not lm or tm.start() > lm.start():
-        return None, "replay_events is not `if let Ok(Some(e)) = stream_cache.try_replay(id) { return Ok(e) }` followed by event_log.replay_stream"
-    if len(re.findall(r"\breturn\b", body)) != 1:
-        return None, "replay_events has another early return"
+    disc, why = read_rebuild_discipline(cache_src, cont_src)
+    if disc is None:
+        return None, why
     sp = fn_span(cache_src, "try_replay")
     if not sp:
         return None, "fn try_replay not found"
@@ -343,7 +336,87 @@ def read_replay_check(cache_src, cont_src):
         return None, "try_replay: the seq check does not precede events.push(event)"
     if not re.search(r"if\s+events\s*\.\s*is_empty\(\)\s*\{\s*return\s+Err\(", body):
         return None, "try_replay: an empty sidecar is not rejected"
-    return {"first": first, "cmp": cmp_}, None
+    return {"first": first, "cmp": cmp_, "atomic": disc["atomic"], "locked": disc["locked"]}, None
+
+
+SERVED_RE = r"if\s+let\s+Ok\(\s*Some\(\s*(\w+)\s*\)\s*\)\s*=\s*self\s*\.\s*stream_cache\s*\.\s*try_replay\(\s*continuity_id\s*\)\s*\{\s*return\s+Ok\(\s*\1\s*\)\s*;\s*\}"
+LOGREAD_RE = r"self\s*\.\s*event_log\s*\.\s*replay_stream\(\s*StreamKind::Continuity\s*,\s*continuity_id\s*\)"
+
+
+def served_then_log(body):
+    """`if let Ok(Some(e)) = stream_cache.try_replay(id) { return Ok(e) }`, then the log read, then the rebuild; no other return"""
+    tm, lm = re.search(SERVED_RE, body), re.search(LOGREAD_RE, body)
+    rb = re.search(r"\.\s*rebuild_best_effort\(", body)
+    return bool(tm and lm and rb and tm.start() < lm.start() < rb.start() and len(re.findall(r"\breturn\b", body)) == 1)
+
+
+def fn_containing(src, pos):
+    """name of the innermost fn whose body contains pos"""
+    best = None
+    for m in re.finditer(r"\bfn\s+(\w+)\s*(<[^>]*>)?\s*\(", src):
+        sp = fn_span(src, m.group(1), m.start())
+        if sp and sp[0] <= pos < sp[1] and (best is None or sp[0] > best[1]):
+            best = (m.group(1), sp[0])
+    return best[0] if best else None
+
+
+def read_rebuild_discipline(cache_src, cont_src):
+    """How the sidecar is rebuilt when try_replay refuses it (the discipline of Model/Subscribe.v, rdisc):
+    locked = replay_events takes the writers' seq mutex (a guard bound to a NAME, kept to the end of the function) before the
+             log read and the rebuild, which live in replay_events_locked (sidecar tried again, log, rebuild); every other
+             rebuild / replay_events_locked / load_next_seq_for call site is under that mutex as well;
+    atomic = rebuild_best_effort writes a temporary file next to the sidecar and renames it over the sidecar after the last
+             write and the flush (File::create on the sidecar itself = in place)."""
+    sp = fn_span(cont_src, "replay_events")
+    if not sp:
+        return None, "fn replay_events not found"
+    body = cont_src[sp[0]:sp[1]]
+    if served_then_log(body) and not re.search(r"next_seq\s*\.\s*(try_)?lock\(", body):
+        locked = False
+    else:
+        tm = re.search(SERVED_RE, body)
+        gm = re.search(r"let\s+(_\w+)\s*=\s*self\s*\.\s*next_seq\s*\.\s*lock\(\)\s*\.\s*expect\([^)]*\)\s*;", body)
+        cm = re.search(r"self\s*\.\s*replay_events_locked\(\s*continuity_id\s*\)\s*$", body.rstrip().rstrip("}").rstrip())
+        if not (tm and gm and cm and tm.end() <= gm.start() < cm.start()) or len(re.findall(r"\breturn\b", body)) != 1:
+            return None, "replay_events is neither `served | log read | rebuild` nor `served | let _guard = self.next_seq.lock().expect(..); self.replay_events_locked(id)`"
+        if re.search(r"\bdrop\(\s*" + gm.group(1) + r"\s*\)", body) or len(re.findall(r"next_seq\s*\.\s*(?:try_)?lock\(", body)) != 1:
+            return None, "replay_events: the seq mutex guard is dropped early / taken twice"
+        sp2 = fn_span(cont_src, "replay_events_locked")
+        if not sp2 or not served_then_log(cont_src[sp2[0]:sp2[1]]) or re.search(r"next_seq\s*\.\s*(try_)?lock\(", cont_src[sp2[0]:sp2[1]]):
+            return None, "replay_events_locked is not `served | log read | rebuild` (without taking the mutex again)"
+        # every other path into the rebuild holds the mutex too
+        for m in re.finditer(r"\.\s*rebuild_best_effort\(", cont_src):
+            if fn_containing(cont_src, m.start()) not in ("replay_events_locked", "load_next_seq_for"):
+                return None, f"rebuild_best_effort called from {fn_containing(cont_src, m.start())} (not known to hold the seq mutex)"
+        for m in re.finditer(r"\bself\s*\.\s*replay_events_locked\(", cont_src):
+            if fn_containing(cont_src, m.start()) not in ("replay_events", "load_next_seq_for"):
+                return None, f"replay_events_locked called from {fn_containing(cont_src, m.start())}"
+        for m in re.finditer(r"\bself\s*\.\s*load_next_seq_for\(", cont_src):
+            f = fn_containing(cont_src, m.start())
+            fs = fn_span(cont_src, f) if f else None
+            if not fs or not re.search(r"let\s+mut\s+next_seq\s*=\s*self\s*\.\s*next_seq\s*\.\s*lock\(\)", cont_src[fs[0]:m.start()]):
+                return None, f"load_next_seq_for called from {f} without the seq mutex"
+        locked = True
+    sp = fn_span(cache_src, "rebuild_best_effort")
+    if not sp:
+        return None, "fn rebuild_best_effort not found"
+    body = cache_src[sp[0]:sp[1]]
+    body = body[:body.find("index_builder.write_best_effort")] if "index_builder.write_best_effort" in body else body
+    creates = re.findall(r"File::create\(\s*&(\w+)\s*\)", body)
+    if len(creates) != 1 or "OpenOptions" in body or not re.search(r"let\s+path\s*=\s*self\s*\.\s*path_for\(\s*continuity_id\s*\)\s*;", body):
+        return None, f"rebuild_best_effort: {len(creates)} File::create calls / the sidecar path is not `self.path_for(continuity_id)`"
+    renames = [m.start() for m in re.finditer(r"fs::rename\(\s*&tmp_path\s*,\s*&path\s*\)", body)]
+    if creates[0] == "path" and not re.search(r"\brename\b", body):
+        atomic = False
+    elif creates[0] == "tmp_path" and re.search(r"let\s+tmp_path\s*=\s*path\s*\.\s*with_extension\(", body) and len(renames) == 1 \
+            and len(re.findall(r"\brename\(", body)) == 1:
+        last_write = max([m.start() for m in re.finditer(r"\.\s*(write_all|flush)\(", body)] or [len(body)])
+        if renames[0] < last_write:
+            return None, "rebuild_best_effort: the rename does not follow the last write / the flush"
+        atomic = True
+    else:
+        return None, f"rebuild_best_effort: File::create(&{creates[0]}) in an unknown shape"
+    return {"atomic": atomic, "locked": locked}, None
 
 
 # ----------------------------------------------------------------- handlers
@@ -717,6 +790,16 @@ def generate(repo):
     L.append("Proof. vm_compute. reflexivity. Qed.")
     L.append("Lemma gen_replay_check_ok : replay_ok gen_replay_check = true.")
     L.append("Proof. vm_compute. reflexivity. Qed.")
+    L.append("")
+    L.append("(* the discipline of the sidecar rebuild a refused try_replay leads to (ContinuityStore::replay_events /")
+    L.append("   ContinuityStreamCache::rebuild_best_effort): rd_locked = log read + rebuild under the writers' seq mutex,")
+    L.append("   rd_atomic = temporary file renamed over the sidecar (not a rewrite in place) *)")
+    if rep is not None:
+        L.append(f"Definition gen_rebuild_disc : rdisc := {{| rd_atomic := {'true' if rep['atomic'] else 'false'}; rd_locked := {'true' if rep['locked'] else 'false'} |}}.")
+    else:
+        L.append("Definition gen_rebuild_disc : rdisc := {| rd_atomic := false; rd_locked := false |}.")
+    L.append("Lemma gen_rebuild_disc_ok : gen_ok_replay_check && rdisc_ok gen_rebuild_disc = true.")
+    L.append("Proof. vm_compute. reflexivity. Qed.")
     notes = notes + notes2
     return "\n".join(L) + "\n", ok and buf is not None and rep is not None, notes, rows, buf, rep
 
@@ -811,15 +894,30 @@ def selftest():
     assert read_buffer_ops([("f.rs", tail_odd)])[0] is None
     assert read_buffer_ops([("f.rs", emit)])[0] == {"ops": [], "pushes": {"f.rs": 1}}
     # try_replay
-    cont = "impl S { pub fn replay_events(&self, continuity_id: &str) -> io::Result<Vec<Event>> { if let Ok(Some(events)) = self.stream_cache.try_replay(continuity_id) { return Ok(events); } let events = self.event_log.replay_stream(StreamKind::Continuity, continuity_id)?; Ok(events) } }"
-    tr = "impl C { fn try_replay(&self, id: &str) -> io::Result<Option<Vec<Event>>> { let mut events = Vec::new(); let mut expected_seq: u64 = %F%; for line in r.lines() { if event.seq %OP% expected_seq { return Err(e); } expected_seq = %UP%; events.push(event); } if events.is_empty() { return Err(e); } Ok(Some(events)) } }"
+    cont = "impl S { pub fn replay_events(&self, continuity_id: &str) -> io::Result<Vec<Event>> { if let Ok(Some(events)) = self.stream_cache.try_replay(continuity_id) { return Ok(events); } let events = self.event_log.replay_stream(StreamKind::Continuity, continuity_id)?; if !events.is_empty() { self.stream_cache.rebuild_best_effort(continuity_id, &events); } Ok(events) } }"
+    tr = "impl C { fn try_replay(&self, id: &str) -> io::Result<Option<Vec<Event>>> { let mut events = Vec::new(); let mut expected_seq: u64 = %F%; for line in r.lines() { if event.seq %OP% expected_seq { return Err(e); } expected_seq = %UP%; events.push(event); } if events.is_empty() { return Err(e); } Ok(Some(events)) } fn rebuild_best_effort(&self, continuity_id: &str, events: &[Event]) { let path = self.path_for(continuity_id); let Ok(file) = File::create(&path) else { return; }; let mut writer = BufWriter::new(file); let _ = writer.write_all(b); let _ = writer.flush(); } }"
     mk = lambda f, op, up: read_replay_check(tr.replace("%F%", f).replace("%OP%", op).replace("%UP%", up), cont)
-    assert mk("0", "!=", "expected_seq.saturating_add(1)")[0] == {"first": 0, "cmp": "SeqExact"}
-    assert mk("0", "<", "event.seq.saturating_add(1)")[0] == {"first": 0, "cmp": "SeqIncreasing"}
-    assert mk("1", "!=", "expected_seq.saturating_add(1)")[0] == {"first": 1, "cmp": "SeqExact"}
+    assert mk("0", "!=", "expected_seq.saturating_add(1)")[0] == {"first": 0, "cmp": "SeqExact", "atomic": False, "locked": False}
+    assert mk("0", "<", "event.seq.saturating_add(1)")[0] == {"first": 0, "cmp": "SeqIncreasing", "atomic": False, "locked": False}
+    assert mk("1", "!=", "expected_seq.saturating_add(1)")[0] == {"first": 1, "cmp": "SeqExact", "atomic": False, "locked": False}
     assert mk("0", "<", "expected_seq.saturating_add(1)")[0] is None
     assert mk("0", ">", "event.seq + 1")[0] is None
     assert read_replay_check(tr.replace("%F%", "0").replace("%OP%", "!=").replace("%UP%", "expected_seq + 1"), cont.replace("return Ok(events);", "let _ = events;"))[0] is None
+    # the rebuild discipline
+    tr0 = tr.replace("%F%", "0").replace("%OP%", "!=").replace("%UP%", "expected_seq + 1")
+    cont2 = ("impl S { pub fn replay_events(&self, continuity_id: &str) -> io::Result<Vec<Event>> { if let Ok(Some(events)) = self.stream_cache.try_replay(continuity_id) { return Ok(events); } "
+             "let _writers_excluded = self.next_seq.lock().expect(\"m\"); self.replay_events_locked(continuity_id) } "
+             "fn replay_events_locked(&self, continuity_id: &str) -> io::Result<Vec<Event>> { if let Ok(Some(events)) = self.stream_cache.try_replay(continuity_id) { return Ok(events); } "
+             "let events = self.event_log.replay_stream(StreamKind::Continuity, continuity_id)?; if !events.is_empty() { self.stream_cache.rebuild_best_effort(continuity_id, &events); } Ok(events) } "
+             "fn append_x(&self, continuity_id: &str) { let mut next_seq = self.next_seq.lock().expect(\"m\"); let seq = self.load_next_seq_for(continuity_id); } "
+             "fn load_next_seq_for(&self, continuity_id: &str) { self.stream_cache.rebuild_best_effort(continuity_id, &events); let events = self.replay_events_locked(continuity_id)?; } }")
+    tr_tmp = tr0.replace("let Ok(file) = File::create(&path) else { return; };", "let tmp_path = path.with_extension(\"jsonl.tmp\"); let Ok(file) = File::create(&tmp_path) else { return; };").replace("let _ = writer.flush(); }", "let _ = writer.flush(); if !complete || fs::rename(&tmp_path, &path).is_err() { return; } }")
+    d = lambda a, b: (lambda r: None if r[0] is None else (r[0]["atomic"], r[0]["locked"]))(read_replay_check(a, b))
+    assert d(tr0, cont) == (False, False) and d(tr_tmp, cont) == (True, False) and d(tr0, cont2) == (False, True) and d(tr_tmp, cont2) == (True, True)
+    assert d(tr_tmp, cont2.replace("let _writers_excluded =", "let _ =")) is None            # the guard is dropped at once
+    assert d(tr_tmp, cont2.replace("fn append_x(&self, continuity_id: &str) { let mut next_seq = self.next_seq.lock().expect(\"m\");", "fn append_x(&self, continuity_id: &str) {")) is None
+    assert d(tr_tmp.replace("fs::rename(&tmp_path, &path)", "fs::rename(&path, &tmp_path)"), cont2) is None
+    assert d(tr_tmp.replace("let _ = writer.flush(); if !complete || fs::rename(&tmp_path, &path).is_err() { return; }", "if !complete || fs::rename(&tmp_path, &path).is_err() { return; } let _ = writer.flush();"), cont2) is None
     # live_frames (the repaired live half)
     lf = """fn live_frames<F, Fut>(receiver: R, last_seq: Option<u64>, stream_id: Option<String>, refill: F) -> impl Stream {
         futures_util::stream::unfold((receiver, last_seq, pending, stream_id, refill), |(mut receiver, mut last_seq, mut pending, stream_id, refill)| async move {
@@ -888,7 +986,7 @@ def main():
             kinds[op] = kinds.get(op, 0) + 1
         print("stream_order: history buffer statements:", ", ".join(f"{k} x{v}" for k, v in sorted(kinds.items())), "; pushes:", {k: v for k, v in buf["pushes"].items() if v})
     if rep is not None:
-        print(f"stream_order: thread history source: try_replay first={rep['first']} check={rep['cmp']}")
+        print(f"stream_order: thread history source: try_replay first={rep['first']} check={rep['cmp']}; sidecar rebuild: atomic={rep['atomic']} locked={rep['locked']}")
     for n in notes:
         print("stream_order: NOT FOUND:", n)
     # rc 0 even when a construct is missing: the failed obligation gen_stream_order_found reports it
